@@ -151,10 +151,14 @@ def main():
             print(f'{name:40s} {prop} suite={suite} check={verdict} ({dt:.1f}s) expect={expect} -> {"ok" if good else "UNEXPECTED"}')
             if a.v:
                 ls = out.splitlines()
+                first = True
                 for i, l in enumerate(ls):
                     if l.startswith('VIOLATION '):
-                        print('\n'.join('    ' + x[:600] for x in ls[i:i + 5]))
-                        break
+                        if first:
+                            print('\n'.join('    ' + x[:600] for x in ls[i:i + 5]))
+                            first = False
+                        else:
+                            print('    (also) ' + (ls[i + 1].strip()[:160] if i + 1 < len(ls) else ''))
             if not good:
                 bad += 1
                 print(out[-3000:])
